@@ -110,7 +110,11 @@ class SimTransport(asyncio.Transport):
             self._closing = True
             self.closed_at = self._loop.time()
             self.trace.ev("net", "write_error", n=len(data))
-            self._loop.call_soon(self._call_lost, ConnectionResetError("injected write failure"))
+            # (what a failed send() gives the selector transport is any OSError: ECONNRESET, but also ETIMEDOUT - TimeoutError - or
+            #  EHOSTUNREACH, which are not ConnectionErrors)
+            exc = {"timeout": TimeoutError(110, "Connection timed out"), "unreach": OSError(113, "No route to host")}.get(
+                getattr(self, "fail_write_exc", None)) or ConnectionResetError("injected write failure")
+            self._loop.call_soon(self._call_lost, exc)
             return
         data = bytes(data)
         self.bytes_written += len(data)
